@@ -2218,7 +2218,8 @@ void ScriptVariable::operator<<=(const ScriptVariable& value)
         throw ScriptVariableErrors::IncompatibleOperator("<<", type1, type2);
 
     case uint32_t(variableType_e::Integer + variableType_e::Integer * variableType_e::Max): // ( int ) <<= ( int )
-        m_data.long64Value <<= value.m_data.long64Value;
+        // a shift count outside 0..63 is undefined: use the low six bits, which is what the hardware did
+        m_data.long64Value = (int64_t)((uint64_t)m_data.long64Value << (value.m_data.long64Value & 63));
         break;
     }
 }
@@ -2238,7 +2239,8 @@ void ScriptVariable::operator>>=(const ScriptVariable& value)
 
     // ( int ) >>= ( int )
     case uint32_t(variableType_e::Integer + variableType_e::Integer * variableType_e::Max):
-        m_data.long64Value >>= value.m_data.long64Value;
+        // a shift count outside 0..63 is undefined: use the low six bits, which is what the hardware did
+        m_data.long64Value >>= (value.m_data.long64Value & 63);
         break;
     }
 }
